@@ -11,6 +11,7 @@ import GfsProofs.CompressLemmas
 import GfsProofs.ParseSyn
 import GfsProofs.ParseSem
 import GfsProofs.StrParse
+import GfsModel.ListSeqs
 
 namespace Gfs.Proofs
 open Gfs Gfs.Spec
@@ -325,5 +326,98 @@ theorem padFrameRange_both (cs : List Comp) (parts : List Bytes) (w : Int)
 /-- every frame numeral the port prints has at least `w` characters -/
 theorem cpp_zfill_length (v w : Int) (h : 2 ≤ w) : w ≤ (Cpp.zfill v w).length := by
   rw [cpp_zfill_eq]; exact zfillInt_length v w h
+
+/-! ### the port's directory scan: one bucket of uniformly padded frames -/
+
+theorem findPad_isSome : ∀ (s acc : Bytes), (∃ c ∈ s, c = '#' ∨ c = '@') → ∃ r, findPad acc s = some r
+  | [], _, h => by obtain ⟨c, hc, _⟩ := h; cases hc
+  | c :: r, acc, h => by
+    unfold findPad
+    cases hp : padTokenAt (c :: r) with
+    | some t => exact ⟨_, rfl⟩
+    | none =>
+      simp only
+      have hc : ¬ (c = '#' ∨ c = '@') := by
+        intro hcc
+        simp [padTokenAt, hcc] at hp
+      obtain ⟨d, hd, hdd⟩ := h
+      rcases List.mem_cons.1 hd with rfl | hd
+      · exact absurd hdd hc
+      · exact findPad_isSome r (c :: acc) ⟨d, hd, hdd⟩
+
+theorem splitSeq_isSome (s : Bytes) (hnl : s.contains '\n' = false) (h : ∃ c ∈ s, c = '#' ∨ c = '@') :
+    ∃ t, splitSeq s = some t := by
+  obtain ⟨r, hr⟩ := findPad_isSome s [] h
+  obtain ⟨pre, tok, ext⟩ := r
+  unfold splitSeq
+  have hn : ¬ (s.contains '\n' = true) := by rw [hnl]; simp
+  rw [if_neg hn, hr]
+  exact ⟨_, rfl⟩
+
+theorem parse_of_split (st : PadStyle) (s n r p e : Bytes) (h : splitSeq s = some (n, r, p, e)) :
+    Seq.parse st s = .ok (Seq.setPadding
+      ⟨(pathSplit n).2, (pathSplit n).1, e, p, 0, (FrameSet.parse r).toOption, st⟩ p) := by
+  unfold Seq.parse
+  rw [h]
+
+/-- C19, directory scan, one bucket: for a directory ending in '/', a pad made of pad characters,
+    no newline in the names and a range text that parses, the port's "build the string, parse it,
+    force the components" yields exactly the sequence the Go library builds from the components
+    (`rebuild`), whatever the basename contains. -/
+theorem cpp_bucketSeq_eq (st : PadStyle) (dir base frange pad ext : Bytes) (fs : FrameSet)
+    (hdir : dir.isEmpty = true ∨ isSuffixOf ['/'] dir = true)
+    (hext : ext = [] ∨ isPrefixOf ['.'] ext = true)
+    (hpad : pad ≠ [] ∧ ∀ c ∈ pad, c = '#' ∨ c = '@')
+    (hnl : (dir ++ base ++ frange ++ pad ++ ext).contains '\n' = false)
+    (hne : frange ≠ []) (hp : FrameSet.parse frange = .ok fs) :
+    Cpp.bucketSeq st dir base frange pad ext = .ok (rebuild st dir base frange pad ext) := by
+  obtain ⟨hpne, hpc⟩ := hpad
+  have hex : ∃ c ∈ dir ++ base ++ frange ++ pad ++ ext, c = '#' ∨ c = '@' := by
+    cases hpd : pad with
+    | nil => exact absurd hpd hpne
+    | cons c cs =>
+      refine ⟨c, ?_, hpc c (by rw [hpd]; exact List.mem_cons_self)⟩
+      simp
+  obtain ⟨⟨n, r, p, e⟩, hs⟩ := splitSeq_isSome _ hnl hex
+  unfold Cpp.bucketSeq
+  rw [parse_of_split st _ n r p e hs]
+  have hpe : pad.isEmpty = false := by cases pad with | nil => exact absurd rfl hpne | cons _ _ => rfl
+  simp only [hpe, Bool.false_eq_true, if_false]
+  have hfe : frange.isEmpty = false := by cases frange with | nil => exact absurd rfl hne | cons _ _ => rfl
+  unfold rebuild
+  simp only [hpe, hfe, Bool.false_eq_true, false_and, if_false, Bool.not_false]
+  have hd : (if dir.isEmpty || isSuffixOf ['/'] dir then dir else dir ++ ['/']) = dir := by
+    rcases hdir with h | h <;> simp [h]
+  have he : (if ext.isEmpty || isPrefixOf ['.'] ext then ext else '.' :: ext) = ext := by
+    rcases hext with h | h
+    · subst h; rfl
+    · simp [h]
+  simp only [Cpp.setDirname, Cpp.setExt, Seq.setBasename, Seq.setPadding, Seq.setFrameRange, hp, hd, he]
+
+/-- the constructor records the pad style it was given -/
+theorem parse_style (st : PadStyle) (x : Bytes) (s : Seq) (h : Seq.parse st x = .ok s) : s.style = st := by
+  unfold Seq.parse at h
+  repeat' (split at h)
+  all_goals (first | (injection h with h; subst h; rfl) | (simp at h))
+
+/-- C19, directory scan, a frame-less file: whenever the constructor accepts the full path (it
+    always does when the path holds no pad character), the port's single-file entry is the one the
+    Go library builds from the components — whatever the directory's own name contains. -/
+theorem cpp_singleSeq_frameless (st : PadStyle) (path dir base ext : Bytes) (s0 : Seq)
+    (hdir : dir.isEmpty = true ∨ isSuffixOf ['/'] dir = true)
+    (hext : ext = [] ∨ isPrefixOf ['.'] ext = true)
+    (hp : Seq.parse st path = .ok s0) :
+    Cpp.singleSeq st path dir base [] ext = .ok (rebuild st dir base [] [] ext) := by
+  have hst := parse_style st path s0 hp
+  unfold Cpp.singleSeq
+  rw [hp]
+  have hd : (if dir.isEmpty || isSuffixOf ['/'] dir then dir else dir ++ ['/']) = dir := by
+    rcases hdir with h | h <;> simp [h]
+  have he : (if ext.isEmpty || isPrefixOf ['.'] ext then ext else '.' :: ext) = ext := by
+    rcases hext with h | h
+    · subst h; rfl
+    · simp [h]
+  simp only [rebuild, Cpp.setDirname, Cpp.setExt, Seq.setBasename, Seq.setPadding, Seq.setFrameSet, hd, he, hst,
+    List.isEmpty_nil, Bool.not_true, Bool.false_eq_true, and_false, if_false, if_true]
 
 end Gfs.Proofs
